@@ -3,6 +3,8 @@ package gosym
 import (
 	"fmt"
 	"go/types"
+	"os"
+	"runtime/debug"
 	"sort"
 	"strings"
 	"sync"
@@ -61,18 +63,18 @@ type Ctx struct {
 	budget   Budget
 	stack    []string
 
-	panics  []*panicState
-	globals map[*ssa.Global]*Value
-	inited  map[*ssa.Package]bool
-	FS      *VFS
-	Args    []Str // os.Args
-	MapPerm func(c *Ctx, n int) []int
-	Funcs   map[*ssa.Function]int // executed functions -> instruction count
-	fresh   int
-	lenInfo map[*sym.Term]lenMeta
-	dom     map[*sym.Term]*[4]uint64 // current value set of 8-bit variables (refined by single-variable PC atoms)
-	rel     map[*sym.Term]bool       // variable occurs in a multi-variable PC constraint
-	tvars   map[*sym.Term][]*sym.Term
+	panics     []*panicState
+	globals    map[*ssa.Global]*Value
+	inited     map[*ssa.Package]bool
+	FS         *VFS
+	Args       []Str // os.Args
+	MapPerm    func(c *Ctx, n int) []int
+	Funcs      map[*ssa.Function]int // executed functions -> instruction count
+	fresh      int
+	lenInfo    map[*sym.Term]lenMeta
+	dom        map[*sym.Term]*[4]uint64 // current value set of 8-bit variables (refined by single-variable PC atoms)
+	rel        map[*sym.Term]bool       // variable occurs in a multi-variable PC constraint
+	tvars      map[*sym.Term][]*sym.Term
 	DomDecided int // branch decisions settled by exhaustive evaluation over byte domains
 
 	// ProbeFn, when set by a harness, turns a model of the path condition into a concrete instance of the path;
@@ -383,6 +385,14 @@ func (c *Ctx) Choose(name string, lo, hi int) int {
 
 // Sat asks whether PC ∧ extra is satisfiable and returns a model for all variables if so.
 func (c *Ctx) Sat(extra ...*sym.Term) (sym.Result, map[string]uint64) {
+	// a nil term stands for "no further condition"
+	kept := extra[:0:0]
+	for _, t := range extra {
+		if t != nil {
+			kept = append(kept, t)
+		}
+	}
+	extra = kept
 	r := c.S.Check(extra...)
 	if r == sym.Sat {
 		for _, v := range c.B.Vars {
@@ -597,7 +607,7 @@ func (e *Engine) runPath(h Harness, prefix []bool, solver *sym.Solver, budget Bu
 		globals: map[*ssa.Global]*Value{}, inited: map[*ssa.Package]bool{},
 		FS: NewVFS(), Funcs: map[*ssa.Function]int{}, Data: map[string]interface{}{},
 		lenInfo: map[*sym.Term]lenMeta{},
-		dom: map[*sym.Term]*[4]uint64{}, rel: map[*sym.Term]bool{}, tvars: map[*sym.Term][]*sym.Term{},
+		dom:     map[*sym.Term]*[4]uint64{}, rel: map[*sym.Term]bool{}, tvars: map[*sym.Term][]*sym.Term{},
 	}
 	solver.Begin()
 	res = &PathResult{}
@@ -628,6 +638,9 @@ func (e *Engine) runPath(h Harness, prefix []bool, solver *sym.Solver, budget Bu
 			default:
 				res.End = "engine-error"
 				res.Detail = fmt.Sprintf("%v\n%s", r, strings.Join(c.stack, " <- "))
+				if os.Getenv("VERIF_DEBUG") != "" {
+					fmt.Fprintf(os.Stderr, "engine-error: %v\n%s\n", r, debug.Stack())
+				}
 				if len(c.stack) > 12 {
 					res.Detail = fmt.Sprintf("%v\n%s", r, strings.Join(c.stack[len(c.stack)-12:], " <- "))
 				}
